@@ -33,7 +33,7 @@ double GoldenSectionSearch::GSSStopCondition::getCurrentTolerance() const
 
 GoldenSectionSearch::GoldenSectionSearch(std::shared_ptr<FunctionInterface> function) :
   AbstractOptimizer(function),
-  f1(0), f2(0), x0(0), x1(0), x2(0), x3(0), xinf_(0), xsup_(0), isInitialIntervalSet_(false)
+  f1(0), f2(0), x0(0), x1(0), x2(0), x3(0), xinf_(0), xsup_(0), xstart_(0), fstart_(0), isInitialIntervalSet_(false)
 {
   nbEvalMax_ = 10000;
   setDefaultStopCondition_(make_shared<GSSStopCondition>(this));
@@ -49,6 +49,10 @@ void GoldenSectionSearch::doInit(const ParameterList& params)
     throw Exception("GoldenSectionSearch::init(). This optimizer only deals with one parameter.");
 
   // Bracket the minimum.
+  // Remember the starting point: the search itself only looks at the initial interval.
+  xstart_ = getParameters()[0].getValue();
+  fstart_ = getFunction()->f(getParameters());
+
   Bracket bracket = OneDimensionOptimizationTools::bracketMinimum(xinf_, xsup_, function(), getParameters());
   if (getVerbose() > 0)
   {
@@ -126,6 +130,21 @@ double GoldenSectionSearch::doStep()
     NumTools::shift<double>(f2, f1, getFunction()->f(getParameters()));
     return f1;
   }
+}
+
+/******************************************************************************/
+
+double GoldenSectionSearch::optimize()
+{
+  AbstractOptimizer::optimize();
+  // The step leaves the parameter at the last evaluated point, which may be the worse of the two interior points:
+  // (and an interrupted search may not have reached the value of the starting point yet)
+  double xbest = f1 < f2 ? x1 : x2;
+  if (fstart_ < (f1 < f2 ? f1 : f2))
+    xbest = xstart_;
+  getParameter_(0).setValue(xbest);
+  currentValue_ = getFunction()->f(getParameters());
+  return currentValue_;
 }
 
 /******************************************************************************/
